@@ -85,6 +85,15 @@ pub enum Op {
     Views(usize),
     SpareWrite(Api, usize, usize),
     SetLen(usize, usize),
+    IterClone(IterKind, usize, Vec<bool>, Vec<bool>),
+    ProbeTypes(usize, usize),
+    DownWrong(usize, TKind, usize),
+    SwapWrong(usize, usize),
+    Write(usize, usize, usize),
+    Read(usize, usize, usize),
+    Swap(usize, usize, usize, usize, usize),
+    Parts(usize, usize),
+    Placement,
 }
 
 #[derive(Clone, Debug)]
@@ -246,6 +255,15 @@ pub fn parse_op(t: &[&str]) -> Op {
         ["views", v] => Op::Views(u(v)),
         ["spare_write", a, v, k] => Op::SpareWrite(parse_api(a), u(v), u(k)),
         ["set_len", v, n] => Op::SetLen(u(v), u(n)),
+        ["iter_clone", k, v, p1, p2] => Op::IterClone(parse_ik(k), u(v), parse_pat_ro(p1), parse_pat_ro(p2)),
+        ["probe_types", v, i] => Op::ProbeTypes(u(v), u(i)),
+        ["down_wrong", v, k, i] => Op::DownWrong(u(v), parse_tkind(k), u(i)),
+        ["swap_wrong", v, i] => Op::SwapWrong(u(v), u(i)),
+        ["write", hk, v, i] => Op::Write(u(hk), u(v), u(i)),
+        ["read", hk, v, i] => Op::Read(u(hk), u(v), u(i)),
+        ["swap", pr, v1, i, v2, j] => Op::Swap(u(pr), u(v1), u(i), u(v2), u(j)),
+        ["parts", v, m] => Op::Parts(u(v), u(m)),
+        ["placement"] => Op::Placement,
         _ => panic!("bad op {:?}", t),
     }
 }
